@@ -186,7 +186,7 @@ func (P *Prog) verifyFuncOnce(fn *ssa.Function, thorough bool, autoOff map[strin
 			if cond == "true" {
 				return
 			}
-			o := &Obl{Name: shortKey(key) + ":" + kind + ":" + name + "#0", Kind: kind, Pos: ex.q.pos(), Reach: retReach, Cond: cond, Fn: key, Label: c.Label, Text: c.Src, Thor: c.Thor, Mode: c.Mode}
+			o := &Obl{Name: shortKey(key) + ":" + kind + ":" + name + "#0", Kind: kind, Pos: ex.q.pos(), Reach: retReach, Cond: cond, Fn: key, Label: c.Label, Text: c.Src, Thor: c.Thor, Mode: c.Mode, Slow: c.Slow}
 			ex.obls = append(ex.obls, o)
 		}
 		if spec != nil {
@@ -263,7 +263,6 @@ func (P *Prog) solveFuncBudget(s *Solver, res *FuncResult, thorough bool, keep f
 		s2.quickMs = 1200
 		s2.perSolver = s.perSolver
 		sp := &s2
-		defer func() { s.mu.Lock(); s.solverSecs += sp.solverSecs - s.solverSecs; s.mu.Unlock() }()
 		return P.solveFuncInner(sp, res, thorough, keep, false)
 	}
 	return P.solveFuncInner(s, res, thorough, keep, true)
